@@ -54,7 +54,7 @@ ASSUMPTIONS = [
 
 def gen_cases(tier, seed):
     rng = np.random.default_rng([seed, 111])
-    n = 25 if tier == 'quick' else 250
+    n = 25 if tier == 'quick' else 2400
     cases = []
     for i in range(n):
         c = {'seed': int(rng.integers(2 ** 31))}
